@@ -5,3 +5,11 @@ claim("C01",
       "matrix, 7 product, 5 conjugate and 3 rotation routes of the real library, and traces recorded from the real objects "
       "are validated by TraceAttitude. Bounded by the grid (exhaustive inside it), plus float-only relational classes.",
       "TLA+ AttitudeMachine + TLC (exhaustive/simulate) + forward replay and trace validation", "DESIGN.md section 5, C01")
+claim("C09",
+      "TLC checks associativity, norm multiplicativity, anti-homomorphism of conjugation, the two-sided inverse and the "
+      "left/right product matrices on every triple of L(1) (thorough) / L(1) x 2O^2 (quick) in exact integers, and explores the "
+      "non-versor register machine (products, conjugate, inverse, storage-order change) with every route; exact integer "
+      "triples and pairs are replayed through *, @, product, q_prod, mult_L, mult_R in both storage orders with tolerance 0, "
+      "and traces recorded from real non-versor objects are validated by TraceHamilton (as-built deviation for the known "
+      "inverse defect).",
+      "TLA+ HamiltonAlgebra + TLC + exact replay and trace validation", "DESIGN.md section 5, C09")
